@@ -249,15 +249,13 @@ impl StorageConfig for NdarrayConfig {
             stats_arrays.insert(name, array);
         }
 
+        // Create arrays for the draw variables (the expanded posterior vector)
         for ((name, extra_dims), (name2, item_type)) in settings
-            .stat_dims_all(math)
+            .data_dims_all(math)
             .into_iter()
-            .zip(settings.stat_types(math).into_iter())
+            .zip(settings.data_types(math).into_iter())
         {
             assert!(name == name2);
-            if ["draw", "chain"].contains(&name.as_str()) {
-                continue;
-            }
             // Build shape: [n_chains, total_draws, ...extra_dims]
             let mut shape = vec![n_chains, total_draws];
             for dim in extra_dims {
